@@ -383,7 +383,8 @@ def gen_enum(name, rng, ctx):
             rec = initial_record(rng, ctx, positional=True, nfields=rng.randint(1, 3))
         else:
             rec = initial_record(rng, ctx, nfields=rng.randint(1, 3))
-        if shape != "unit" and rng.random() < 0.6 and not transient:
+        if shape != "unit" and rng.random() < 0.6:
+            # (a transient constructor may carry evolution steps as well; they are never used)
             for _ in range(rng.randint(1, 2)):
                 evolve(rec, rng, ctx, allow_removal=False)
         # removals are only generated for records that carried a header from their first release
@@ -516,7 +517,14 @@ def emit_family(fam, out):
                 rec = c["rec"]
                 attrs = ""
                 if c["transient"]:
-                    attrs += "#[transient] "
+                    a = attr_steps(rec)
+                    # the evolution attribute in front of the transient mark, or behind it
+                    if a and len(c["name"]) % 2 == 0:
+                        attrs += a + " #[transient] "
+                    elif a:
+                        attrs += "#[transient] " + a + " "
+                    else:
+                        attrs += "#[transient] "
                 else:
                     a = attr_steps(rec)
                     if a:
